@@ -556,25 +556,68 @@ fn watchdog() {
             .spawn(|| {
                 use std::sync::atomic::Ordering::SeqCst;
                 let mut last = PROGRESS.load(SeqCst);
-                let mut since = Instant::now();
+                // Wall-clock time alone cannot tell a stuck execution from a starved process (a loaded
+                // machine): what is measured is (a) for how long NO thread of this process was even
+                // runnable -- the token holder sleeps in a primitive the scheduler does not own -- and
+                // (b) how much CPU time the process burnt without reaching a scheduling point.
+                let mut blocked_for = Duration::ZERO;
+                let mut cpu0 = process_cpu();
+                let me = unsafe { libc::syscall(libc::SYS_gettid) } as i64;
                 loop {
                     std::thread::sleep(Duration::from_millis(500));
                     let now = PROGRESS.load(SeqCst);
                     if now != last || !IN_EXECUTION.load(SeqCst) {
                         last = now;
-                        since = Instant::now();
-                    } else if since.elapsed() > Duration::from_secs(STALL_SECS) {
+                        blocked_for = Duration::ZERO;
+                        cpu0 = process_cpu();
+                        continue;
+                    }
+                    if any_other_thread_runnable(me) {
+                        blocked_for = Duration::ZERO;
+                    } else {
+                        blocked_for += Duration::from_millis(500);
+                    }
+                    let burnt = process_cpu().saturating_sub(cpu0);
+                    if blocked_for > Duration::from_secs(STALL_SECS) || burnt > Duration::from_secs(STALL_SECS) {
                         let who = match sched().st.try_lock() {
                             Ok(st) => st.current.map(|t| st.threads.get(t).map(|th| th.name.clone()).unwrap_or_default()).unwrap_or_else(|| "?".into()),
                             Err(_) => "?".into(),
                         };
-                        eprintln!("detsched: no scheduling point reached for {STALL_SECS} s (running thread: {who}): the code under test blocks in a primitive the scheduler does not own (std::thread::park, std::sync, std::sync::mpsc, sleep...); no verdict is possible");
+                        if burnt > Duration::from_secs(STALL_SECS) {
+                            eprintln!("detsched: {STALL_SECS} s of CPU time spent without reaching a scheduling point (running thread: {who}): unbounded computation in the code under test; no verdict is possible from here");
+                        } else {
+                            eprintln!("detsched: no thread runnable and no scheduling point reached for {STALL_SECS} s (token holder: {who}): the code under test blocks in a primitive the scheduler does not own (a timed sleep, a foreign thread, ...); no verdict is possible");
+                        }
                         std::process::exit(2);
                     }
                 }
             })
             .ok();
     });
+}
+
+fn process_cpu() -> Duration {
+    let mut ts = libc::timespec { tv_sec: 0, tv_nsec: 0 };
+    unsafe { libc::clock_gettime(libc::CLOCK_PROCESS_CPUTIME_ID, &mut ts) };
+    Duration::new(ts.tv_sec as u64, ts.tv_nsec as u32)
+}
+/// is any thread of this process other than `me` in state R (running or waiting for a CPU)?
+fn any_other_thread_runnable(me: i64) -> bool {
+    let Ok(rd) = std::fs::read_dir("/proc/self/task") else { return true };
+    for e in rd.flatten() {
+        let name = e.file_name();
+        if name.to_str().and_then(|n| n.parse::<i64>().ok()) == Some(me) {
+            continue;
+        }
+        if let Ok(stat) = std::fs::read_to_string(e.path().join("stat")) {
+            if let Some(rest) = stat.rsplit(')').next() {
+                if rest.trim_start().starts_with('R') {
+                    return true;
+                }
+            }
+        }
+    }
+    false
 }
 
 pub fn point(op: Op) {
